@@ -1037,6 +1037,9 @@ class ModelBuilder:
                     else:
                         end_date = start_date
                     project["end"] = end_date
+            if project["end"] is None:
+                # Limits, scoreboards and the scheduler all need the project interval
+                raise ValueError("Project has no duration: expected 'project id \"name\" <start> +<duration>'")
 
         # Apply project attributes
         self._apply_project_attributes(project, proj_data.get("attributes", []))
